@@ -2,6 +2,23 @@
 """writes MANIFEST.json from the table below (keeps it valid and in one place)"""
 import json, os
 CHECKS = {
+ 'C01': dict(technique='sibling/table agreement by constant-partition extraction and interval-guided arm-offset check (R-CODEC-TAB), narrowing-cast interval check (R-WIDTH), stale-pointer and size/payload pairing typestate (R-FIXUP)',
+             text='Decides, on the current source, that every encoder and decoder of option delta/length, TCP length and token length uses the RFC 7252/8323/8974 '
+                  'thresholds, nibbles and offsets (and therefore each other\'s), that the decoder\'s option-number bound as folded in its unit equals the '
+                  'builder\'s, that no stored length passes a truncating explicit cast, and that the builder keeps buffer pointers and size/payload in step. '
+                  'These are necessary conditions of the round trip; equality of parse(serialise(m)) with m is not decided.',
+             design='6 C01'),
+ 'C03': dict(technique='interval analysis with wrap-guard/range-guard discharge on the decoder\'s option-number arithmetic (R-WIDTH), reject-arm must-return-0 typestate over a frozen condition table and parse-before-dispatch gating (R-PARSE-GATE), table agreement (R-CODEC-TAB)',
+             text='Decides that the decoder cannot silently wrap an option number, that each malformed-input condition of the frozen table (reserved nibbles, '
+                  'TKL 15, token longer than message, payload marker without payload, non-empty Empty, option-number overflow, runt datagram, truncated option) is '
+                  'still tested and only leads to a zero return, and that the protocol layer is entered only after successful parser calls. Agreement with an '
+                  'independent decoder on all inputs and the per-option length table are not decided.',
+             design='6 C03'),
+ 'C04': dict(technique='stale-pointer typestate across may-reallocate calls (computed closure) and used_size/data/memmove pairing (R-FIXUP), narrowing-cast interval check (R-WIDTH)',
+             text='Decides for the in-place editors that payload pointer and used size are always moved together by the memmove distance, that no pointer into '
+                  'the buffer survives a call that may reallocate it, and that lengths are not truncated on store. Necessary for "edits change only what they name"; '
+                  'equality with the list model after arbitrary edit sequences is not decided.',
+             design='6 C04'),
  'C12': dict(technique='reference-count pairing typestate (R-REF-TMP), computed holder types with release-before-free (R-REF-HOLD), event-before-free must-precede rule (R-SESS-EVT), linear ownership of local heap objects (R-OWN-LOCAL)',
              text='Every path of every library function: temporary session references are paired; every object type that stores a session reference '
                   '(computed from the assignments) releases it before it is freed or cleared, also through freeing helpers; a server session is freed only '
